@@ -16,8 +16,10 @@
         answer is the ideal verdict computed from the model's bookkeeping: `abort` if the honest
         prover cannot run on these parameters, else `accept` iff the polynomial degree is within
         the declared bound and the degree bookkeeping of the verifier passes, else `reject`.
-        Classes that tamper with an honest transcript (`class` starts with `x`) are always `reject`,
-        except `xdrop` (a proof layer removed): the model's loop aborts on the exhausted channel.
+        Classes that tamper with an honest transcript (`class` starts with `x`) are always `reject`.
+  c08 e2e_incompat <field> <same arguments as e2e>
+        the same, for parameter tuples on which the domain cannot be folded in whole steps down to
+        the remainder size (the honest prover is undefined there: answer `abort`; recorded finding)
 Lists: elements separated by `;` (`-` = empty), an element = comma-separated canonical coefficients;
 position lists comma-separated (`-` = empty).  Empty answers are written `empty`. -/
 import Wf.Model.Fri
@@ -72,6 +74,7 @@ def friErrStr : VerifierError → String
   | .layerCommitmentMismatch => "err LayerCommitmentMismatch"
   | .numPositionEvaluationMismatch a b => s!"err NumPositionEvaluationMismatch {a} {b}"
   | .unsupportedFoldingFactor f => s!"err UnsupportedFoldingFactor {f}"
+  | .proofLayerCountMismatch _ _ => "err Deserialization"
 
 def friResStr : Res Unit → String
   | .ok _ => "ok"
@@ -111,10 +114,10 @@ def friIdealVerdict (o : FriOptions) (domainSize maxDeg : Nat) (deg : Option Nat
     match newCheck o.folding maxDeg (o.numFriLayers domainSize + 1) with
     | some _ => "reject"
     | none =>
-      if nextPow2 maxDeg * o.blowup ≠ domainSize then
-        -- `FriVerifier::new` derives its domain from `max_poly_degree.next_power_of_two()`; when
-        -- that is not the prover's domain (understated bound, or the bound 1 for which
-        -- `1.next_power_of_two() = 1`) only a constant polynomial still passes
+      if nextPow2 (maxDeg + 1) * o.blowup ≠ domainSize then
+        -- `FriVerifier::new` derives its domain from `(max_poly_degree + 1).next_power_of_two()`;
+        -- when that is not the prover's domain (understated bound) only a constant polynomial
+        -- could still pass
         (if deg == some 0 then "accept" else "reject")
       else match deg with
         | some d => if d ≤ maxDeg then "accept" else "reject"
@@ -163,7 +166,7 @@ def runFriOp {F} (f : FriField F) (op : String) (args : List String) : Option St
     let layers ← friParseLayers f ff layers
     let remainder ← elems remainder
     let o : FriOptions := { blowup := blowup, folding := ff, rmd := rmd }
-    match f.gOf (nextPow2 maxdeg * blowup) with
+    match f.gOf (nextPow2 (maxdeg + 1) * blowup) with
     | none => pure "abort"
     | some g =>
       pure (friResStr (newAndVerify v.ops o maxdeg parts (fun _ => g) f.offset alphas evals positions
@@ -177,9 +180,7 @@ def runFriOp {F} (f : FriField F) (op : String) (args : List String) : Option St
     let deg ← if deg == "none" then some none else deg.toNat?.map some
     let o : FriOptions := { blowup := blowup, folding := ff, rmd := rmd }
     let verdict := friIdealVerdict o (2 ^ logDomain) maxdeg deg
-    -- a proof with a layer missing exhausts the channel: `Vec::remove(0)` panics (`verifyLoop` = abort)
-    if cls == "xdrop" && verdict == "accept" then pure "abort"
-    else if cls.startsWith "x" && verdict == "accept" then pure "reject" else pure verdict
+    if cls.startsWith "x" && verdict == "accept" then pure "reject" else pure verdict
   | _, _ => none
 
 def handleFri : List String → String
@@ -196,6 +197,7 @@ def handleFri : List String → String
     | some b, some ff, some rmd, some d =>
       toString (({ blowup := b, folding := ff, rmd := rmd } : FriOptions).numFriLayers d)
     | _, _, _, _ => "bad-op"
+  | "e2e_incompat" :: fld :: args => (friWithField fld (fun f => runFriOp f "e2e" args)).getD "bad-op"
   | fld :: op :: args => (friWithField fld (fun f => runFriOp f op args)).getD "bad-op"
   | _ => "bad-op"
 
